@@ -189,6 +189,16 @@ Theorem C17_last_assignment_wins :
 Proof. exact last_assignment_wins. Qed.
 Print Assumptions C17_last_assignment_wins.
 
+(* The empty section is no exception: a struct section without any item is answered with the
+   required-key error exactly when its struct has a required key (ParamParser has no exit before that check). *)
+Theorem C17_empty_section_required :
+  forall schema decodes fu sid st,
+    find_struct schema sid = Some st ->
+    section_error schema decodes (S fu) (KStruct sid) [] =
+    if existsb f_required (s_fields st) then Some EMissingParam else None.
+Proof. exact C17_empty_section_required_proof. Qed.
+Print Assumptions C17_empty_section_required.
+
 (* The two patches of config.New.  bootstrap_resolver: an accepted configuration leaves it empty (the built-in
    resolvers apply) or gives a value that, trimmed, parses as ip:port; any other value is an error.
    tcp_check_http_method: a known method is kept, an unknown one becomes CONNECT. *)
